@@ -90,6 +90,11 @@ def run(ctx, replay):
             s2 = [dict(l, sticky=True) if l["name"] in ("roundrobin", "rebalancer") and l["mode"] == "pass" else dict(l) for l in s]
             sc = dict(rng.choice(scripts(rng, full=True)), hijack=False)
             steps.append({"layers": s2, "script": sc, "cookie": rng.choice(COOKIES)})
+            if rng.random() < 0.5:    # the response already carries cookies and a header set in front of the stack (in-memory recorder)
+                steps.append({"layers": s2, "script": dict(sc, flush=False), "cookie": rng.choice(COOKIES), "via": "recorder", "preset": True})
+        for stp in steps:
+            if stp.get("via") == "recorder" and "preset" not in stp and rng.random() < 0.3 and not stp["script"].get("rawmap"):
+                stp["preset"] = True
         for stp in steps:     # the tracer's record sink fails for some of the exchanges that pass through a tracer
             if any(l["name"] == "trace" for l in stp["layers"]) and rng.random() < 0.4:
                 stp["sinkfail"] = True
